@@ -77,5 +77,29 @@ def call_value(fn, res, label, prop=None, allow=None):
     return ("ok", f)
 
 
+CONTAINERS = [("array", 6), ("matrix", 2), ("fortran", 1), ("view", 1)]
+
+
+def draw_container(st):
+    """The same numbers in another container.  Representation is part of the configuration space."""
+    return st.weighted(CONTAINERS)
+
+
+def contain(a, form):
+    """ndarray copy / np.matrix (2-D only; `*` is the matrix product there) / Fortran order / a strided view
+    into a larger array."""
+    a = np.asarray(a)
+    if form == "matrix" and a.ndim == 2:
+        return np.matrix(a)
+    if form == "fortran":
+        return np.asfortranarray(a)
+    if form == "view" and a.ndim >= 1 and a.size:
+        big = np.zeros(tuple(2 * n for n in a.shape), dtype=a.dtype)
+        sel = (slice(None, None, 2),) * a.ndim
+        big[sel] = a
+        return big[sel]
+    return a.copy()
+
+
 def quiet():
     warnings.filterwarnings("ignore")
